@@ -61,6 +61,7 @@ func (tm *tMap) markFieldFiltered(fieldName string) {
 // trackedMaps defines a type for tracking maps while processing event.
 type trackedMaps struct {
 	tracked map[uintptr]*tMap // a map of all tracked maps using each map's addr as the index
+	parent  *trackedMaps      // the maps tracked while the map containing these maps is filtered
 	l       sync.RWMutex
 }
 
@@ -126,6 +127,10 @@ func (maps *trackedMaps) getTracked(ptr uintptr) (*tMap, bool) {
 	maps.l.RLock()
 	defer maps.l.RUnlock()
 	tm, ok := maps.tracked[ptr]
+	if !ok && maps.parent != nil {
+		// a pointer tag may address a map several levels down
+		return maps.parent.getTracked(ptr)
+	}
 	return tm, ok
 }
 
@@ -325,6 +330,7 @@ func (maps *trackedMaps) processUnfiltered(ctx context.Context, ef *Filter, filt
 				if err != nil {
 					return fmt.Errorf("%s: unable to filter map: %w", op, err)
 				}
+				newMaps.parent = maps
 				if err := newMaps.processUnfiltered(ctx, ef, filterOverrides, opt...); err != nil {
 					return fmt.Errorf("%s: unable to process maps found in map: %w", op, err)
 				}
